@@ -354,6 +354,36 @@ def _menus():
                 generator=CVGen(num_nodes=n, max_capacity=cap, max_demand=dm),
                 reward_fn=CVDense() if rw == "dense" else CVSparse()),
             nodes=n, capacity=cap, max_demand=dm, reward=rw)
+
+    def _cvrp_boundary(n, cap):
+        """Harness-side subclass of the public abstract Generator: integer demands over the whole range
+        0..max_demand = max_capacity (customers that need nothing, customers that need a full vehicle - the
+        UniformGenerator never emits either) and coordinates on a coarse lattice (coincident nodes, zero-length
+        legs)."""
+        import jax
+        import jax.numpy as jnp
+
+        from jumanji.environments.routing.cvrp.generator import Generator
+        from jumanji.environments.routing.cvrp.types import State
+
+        class Boundary(Generator):
+            def __call__(self, key):
+                key, k1, k2 = jax.random.split(key, 3)
+                coordinates = jax.random.randint(k1, (self.num_nodes + 1, 2), 0, 4).astype(jnp.float32) / 4.0
+                demands = jax.random.randint(k2, (self.num_nodes + 1,), 0, self.max_demand + 1).at[0].set(0)
+                return State(coordinates=coordinates, demands=demands, position=jnp.array(0, jnp.int32),
+                             capacity=jnp.array(self.max_capacity, jnp.int32),
+                             visited_mask=jnp.zeros(self.num_nodes + 1, dtype=bool).at[0].set(True),
+                             trajectory=jnp.full(2 * self.num_nodes, 0, jnp.int32),
+                             num_total_visits=jnp.array(1, jnp.int32), key=key)
+
+        return Boundary(n, cap, cap)
+
+    for n, cap, rw in ((6, 5, "dense"), (6, 5, "sparse")):
+        add("CVRP", f"zb{n}{rw[0]}",
+            lambda n=n, cap=cap, rw=rw, **k: E.CVRP(generator=_cvrp_boundary(n, cap),
+                                                    reward_fn=CVDense() if rw == "dense" else CVSparse()),
+            nodes=n, capacity=cap, max_demand=cap, reward=rw, gen="boundary", harness_gen=True)
     from jumanji.environments.routing.lbf.generator import RandomGenerator as LBGen
     for g, a, f, fov, lvl, coop, grid_obs, norm, pen, t in (
             (5, 1, 1, 5, 2, False, False, True, 0.0, 7),
@@ -448,6 +478,31 @@ def _menus():
         add("TSP", f"n{n}{rw[0]}", lambda n=n, rw=rw, **k: E.TSP(
             generator=TSGen(num_cities=n), reward_fn=TSDense() if rw == "dense" else TSSparse()),
             cities=n, reward=rw)
+
+    def _tsp_lattice(n):
+        """Harness-side subclass of the public abstract Generator: cities on a 4 x 4 lattice of the unit square
+        (coincident cities, zero-length and equal-length legs - boundary values the UniformGenerator never emits)."""
+        import jax
+        import jax.numpy as jnp
+
+        from jumanji.environments.routing.tsp.generator import Generator
+        from jumanji.environments.routing.tsp.types import State
+
+        class Lattice(Generator):
+            def __call__(self, key):
+                key, k1 = jax.random.split(key)
+                coordinates = jax.random.randint(k1, (self.num_cities, 2), 0, 4).astype(jnp.float32) / 3.0
+                return State(coordinates=coordinates, position=jnp.array(-1, jnp.int32),
+                             visited_mask=jnp.zeros(self.num_cities, dtype=bool),
+                             trajectory=jnp.full(self.num_cities, -1, jnp.int32),
+                             num_visited=jnp.array(0, jnp.int32), key=key)
+
+        return Lattice(n)
+
+    for n, rw in ((6, "dense"), (6, "sparse")):
+        add("TSP", f"lat{n}{rw[0]}", lambda n=n, rw=rw, **k: E.TSP(
+            generator=_tsp_lattice(n), reward_fn=TSDense() if rw == "dense" else TSSparse()),
+            cities=n, reward=rw, gen="lattice", harness_gen=True)
     return m
 
 
@@ -467,10 +522,10 @@ QUICK = {
     "Sudoku": ["veryeasy", "dummy", "veryeasy_u8"], "BinPack": ["r10e20s2", "r5e10s1o6"], "FlatPack": ["r2c3b", "r3c2c"],
     "JobShop": ["j3m2o3d2", "j5m4o4d4", "j40m4o3d4"], "Knapsack": ["n10s", "n50d", "q8d"], "Tetris": ["r6c5t400", "r10c10t400"],
     "Cleaner": ["r3c7a1t7", "r5c11a2tNone", "r3c3a2tNone"], "Connector": ["g5a2t7rw", "g6a3t50rw"],
-    "CVRP": ["n5s", "n20d"], "LevelBasedForaging": ["g6a2f2v2l2cVNp0t100", "g8a3f3v3l3nGRp5t100", "g7a2f3v7l2nGRp0t40", "g5a3f1v5l2nVNp0t40"],
+    "CVRP": ["n5s", "n20d", "zb6d"], "LevelBasedForaging": ["g6a2f2v2l2cVNp0t100", "g8a3f3v3l3nGRp5t100", "g7a2f3v7l2nGRp0t40", "g5a3f1v5l2nVNp0t40"],
     "Maze": ["r4c7tNone", "r5c5t7"], "MMST": ["n12e18a2k3t7", "n12e18a3k2t30"], "MultiCVRP": ["c6v2d", "c6v3s"],
     "PacMan": ["t40", "small200", "tunnel120"], "RobotWarehouse": ["s1x3h3a2r1q2t500", "s1x3h2a1r1q1t7"],
-    "Snake": ["r6c4t7", "r3c3t4000"], "Sokoban": ["simplet120", "randomt120", "simplet10", "opent60"], "TSP": ["n5d", "n3d"],
+    "Snake": ["r6c4t7", "r3c3t4000"], "Sokoban": ["simplet120", "randomt120", "simplet10", "opent60"], "TSP": ["n5d", "n3d", "lat6s"],
 }
 
 
